@@ -25,7 +25,7 @@ def passphrases(ctx):
     return out
 
 
-def one(spec, hname, hlib, hbits, cname, kbits, salt, c, pw, explicit_limit=400):
+def one(spec, hname, hlib, hbits, cname, kbits, salt, c, pw, explicit_limit=400, used=False):
     import_pgpy()
     from pgpy.packet.fields import String2Key
     from pgpy.constants import HashAlgorithm, SymmetricKeyAlgorithm, String2KeyType
@@ -37,6 +37,13 @@ def one(spec, hname, hlib, hbits, cname, kbits, salt, c, pw, explicit_limit=400)
     s.salt = bytearray(salt)
     s.count = c
     pwb = pw if isinstance(pw, bytes) else pw.encode('utf-8')
+    if used:
+        # the key is a function of (specifier, hash, salt, count, passphrase), not of what the object derived before
+        try:
+            s.derive_key('an earlier, different passphrase')
+            s.derive_key(pw)
+        except Exception:
+            pass
     try:
         key = octets(s.derive_key(pw))
     except Exception as ex:
@@ -107,7 +114,7 @@ def run(ctx):
     ctx.model('MC_S2K')
     ev = []
     for spec, h, ci, salt, c, pw in cases(ctx):
-        ev.append(one(spec, h[0], h[1], h[2], ci[0], ci[1], salt, c, pw))
+        ev.append(one(spec, h[0], h[1], h[2], ci[0], ci[1], salt, c, pw, used=(len(ev) % 3 == 2 and (spec != 3 or c < 120))))
         ctx.case((spec, h[0], ci[1], c, bytes(ev[-1]['pass'])[:40], len(ev[-1]['pass'])))
     for j in (0, 300, len(ev) // 2, len(ev) - 1):
         e = ev[j]
